@@ -40,11 +40,14 @@ func (onConflict OnConflict) Build(builder Builder) {
 	}
 
 	if onConflict.DoNothing {
+		// (the condition below belongs to DO UPDATE: "DO NOTHING WHERE .." is no SQL; an UpdateAll rule that finds
+		// no column it may update is turned into DoNothing and may still carry one)
 		builder.WriteString("DO NOTHING")
-	} else {
-		builder.WriteString("DO UPDATE SET ")
-		onConflict.DoUpdates.Build(builder)
+		return
 	}
+
+	builder.WriteString("DO UPDATE SET ")
+	onConflict.DoUpdates.Build(builder)
 
 	if len(onConflict.Where.Exprs) > 0 {
 		builder.WriteString(" WHERE ")
